@@ -134,6 +134,7 @@ def measure (n : Nat) (s : St α β) : Nat :=
     Observation: `res=[…] once=ok maxc=<…> after=ok`; the result is sorted in RandomOrder mode.
     `hold=1`: every call of `f` waits until as many calls are in progress as there are workers, so the maximal
     number of concurrent applications is exactly the worker count and is printed (`maxc=<w>`);
+    `hold=2`: completion order forced to be descending by value (only generated when all n applications can be in flight);
     `hold=0`: data-dependent sleeps, the harness prints `maxc=ok` when its gauge never exceeded the bound. -/
 
 def elem (seed i : Nat) : Nat := (i * 31 + seed * 7 + (i * i) % 5) % 97
@@ -163,7 +164,7 @@ def parseCase (line : String) : Option Case :=
     | some n, some p, some m, some t, some h, some s =>
       match n.toNat?, (if p = "nil" then some none else p.toInt?.map some), s.toNat? with
       | some n, some p, some s =>
-        if (m = "o" ∨ m = "r") ∧ (t = "i" ∨ t = "s") ∧ (h = "0" ∨ h = "1") then some ⟨n, p, m = "r", t = "s", h = "1", s⟩
+        if (m = "o" ∨ m = "r") ∧ (t = "i" ∨ t = "s") ∧ (h = "0" ∨ h = "1" ∨ h = "2") then some ⟨n, p, m = "r", t = "s", h = "1", s⟩
         else none
       | _, _, _ => none
     | _, _, _, _, _, _ => none
